@@ -133,6 +133,8 @@ type client struct {
 	id      tls.ClientHelloID
 	mkSpec  func() *tls.ClientHelloSpec
 	cfgMode string // "", "wide" (Min 1.0 / Max 1.3 pre-set), "narrow" (Min = Max = 1.2 pre-set), "reused" (same *Config used by a Firefox_102 UConn before)
+	// afterBuild (optional): what the caller does to the UConn after BuildHandshakeState (hs.Run re-builds afterwards)
+	afterBuild func(*tls.UConn) error
 }
 
 func (cl client) key() string {
@@ -190,7 +192,25 @@ func customClients() []client {
 		{name: "custom-nosv-min11", id: tls.HelloCustom, mkSpec: withVersions(tls.HelloIOS_11_1, nil, V11, V12, false)},
 		// a TLS 1.3 parrot stripped of the extension and capped at 1.2
 		{name: "custom-nosv-stripped", id: tls.HelloCustom, mkSpec: withVersions(tls.HelloFirefox_105, nil, V12, V12, true)},
+		// ... stripped of the extension but TLSVersMax left at 1.3: legacy_version 1.2 on the wire, nothing advertises 1.3
+		{name: "custom-nosv-max13", id: tls.HelloCustom, mkSpec: withVersions(tls.HelloFirefox_105, nil, V12, V13, true)},
+		{name: "custom-nosv-min10-max13", id: tls.HelloCustom, mkSpec: withVersions(tls.HelloFirefox_105, nil, V10, V13, true)},
+		// a built Firefox_105 / Chrome_120 UConn whose SupportedVersionsExtension the caller removes from uc.Extensions
+		{name: "edit:Firefox_105:drop-sv", id: tls.HelloFirefox_105, afterBuild: dropSupportedVersions},
+		{name: "edit:Chrome_120:drop-sv", id: tls.HelloChrome_120, afterBuild: dropSupportedVersions},
 	}
+}
+
+func dropSupportedVersions(uc *tls.UConn) error {
+	var exts []tls.TLSExtension
+	for _, e := range uc.Extensions {
+		if _, ok := e.(*tls.SupportedVersionsExtension); ok {
+			continue
+		}
+		exts = append(exts, e)
+	}
+	uc.Extensions = exts
+	return nil
 }
 
 // specMinimum: the spec's minimum version as the spec itself states it (NOT what reached Config):
@@ -264,7 +284,7 @@ func runOne(p *hs.PKI, cl client, sc scenario, seed int64) *outcome {
 	if cl.mkSpec != nil {
 		spec = cl.mkSpec()
 	}
-	o.res = hs.Run(hs.Opts{ID: cl.id, Spec: spec, ClientCfg: clientConfig(p, cl.cfgMode), ServerCfg: scfg, Script: script})
+	o.res = hs.Run(hs.Opts{ID: cl.id, Spec: spec, ClientCfg: clientConfig(p, cl.cfgMode), ServerCfg: scfg, Script: script, AfterBuild: cl.afterBuild})
 	if cl.mkSpec != nil {
 		o.specmin = specMinimum(cl.mkSpec(), o.res.View) // a pristine copy: ApplyPreset rewrote GREASE in the used one
 	} else {
@@ -308,7 +328,7 @@ func runHistory(p *hs.PKI, cl client, variant string) *history {
 		}
 		return nil
 	}
-	h.r1 = hs.Run(hs.Opts{ID: cl.id, Spec: mk(), ClientCfg: ccfg, ServerCfg: s1, Script: &tls.VerifServerScript{}})
+	h.r1 = hs.Run(hs.Opts{ID: cl.id, Spec: mk(), ClientCfg: ccfg, ServerCfg: s1, Script: &tls.VerifServerScript{}, AfterBuild: cl.afterBuild})
 	// connection 2: TLS 1.2 again, from a server that could do 1.3 (sentinel by the library's rule) or could not
 	s2 := p.ServerConfig(alpnPrefs...)
 	s2.SessionTicketsDisabled = false
@@ -323,7 +343,7 @@ func runHistory(p *hs.PKI, cl client, variant string) *history {
 	} else {
 		s2.MaxVersion = tls.VersionTLS12
 	}
-	h.r2 = hs.Run(hs.Opts{ID: cl.id, Spec: mk(), ClientCfg: ccfg, ServerCfg: s2, Script: h.script2})
+	h.r2 = hs.Run(hs.Opts{ID: cl.id, Spec: mk(), ClientCfg: ccfg, ServerCfg: s2, Script: h.script2, AfterBuild: cl.afterBuild})
 	if cl.mkSpec != nil {
 		h.specmin = specMinimum(cl.mkSpec(), h.r2.View)
 	} else {
@@ -363,7 +383,7 @@ func run(c *vh.Ctx) {
 	// against the servers that ignore supported_versions or are limited to old versions
 	var varied []client
 	for _, cl := range customs {
-		if strings.HasPrefix(cl.name, "custom-nosv") || cl.name == "custom-sv-12-10" {
+		if strings.HasPrefix(cl.name, "custom-nosv") || cl.name == "custom-sv-12-10" || cl.name == "edit:Firefox_105:drop-sv" {
 			varied = append(varied, cl)
 		}
 	}
